@@ -84,7 +84,8 @@ def gen_assign(rng, outs, target):
 
 FAIL_KINDS = ('conflict', 'missing-file', 'wrong-ext-source',
               'wrong-ext-out', 'enoent', 'lua-ext-for-data',
-              'conflict-late', 'write-fault')
+              'conflict-late', 'write-fault', 'cart-in-wrong-ext',
+              'cart-in-wrong-ext', 'empty-string-arg', 'directory-arg')
 
 
 def generate(rng, prop, tier, index):
@@ -392,6 +393,32 @@ def execute(sc):
                     if sec != 'lua' and assign[sec][0] == 'none':
                         need('in/main.lua', lambda: luafile)
                         argv += ['--' + sec, A('in/main.lua')]
+                        expect_fail = True
+                    else:
+                        fkind = None
+                elif fkind == 'cart-in-wrong-ext':
+                    # a perfectly valid cart under a name that is not a cart
+                    # name (also when --lua is given in the same command)
+                    if sec != 'lua' and assign[sec][0] == 'none':
+                        k = fail['k'] % 4
+                        nm = ['in/cartcopy.lua', 'in/cartcopy.txt',
+                              'in/cartcopy', 'in/cartcopy.png'][k]
+                        need(nm, lambda k=k: refcodec.encode_p8(srcs[1])
+                             if k != 3 else refcodec.encode_p8png(srcs[1]))
+                        argv += ['--' + sec, A(nm)]
+                        expect_fail = True
+                    else:
+                        fkind = None
+                elif fkind == 'empty-string-arg':
+                    if assign[sec][0] == 'none':
+                        argv += ['--' + sec, '']
+                        expect_fail = True
+                    else:
+                        fkind = None
+                elif fkind == 'directory-arg':
+                    if assign[sec][0] == 'none':
+                        w.mkdir('in/adir.p8')
+                        argv += ['--' + sec, A('in/adir.p8')]
                         expect_fail = True
                     else:
                         fkind = None
